@@ -155,6 +155,16 @@ class Exec:
             b = sp.Symbol(b.path)
         if not isinstance(a, sp.Expr) or not isinstance(b, sp.Expr):
             raise Incomplete("comparison of non-scalar values")
+        for x_, other, left in ((a, b, True), (b, a, False)):
+            if isinstance(x_, sp.Piecewise):
+                # case split over the branches of a conditional value (`c ? x : y` compared with z)
+                res, rest = sp.false, sp.true
+                for e_, c_ in x_.args:
+                    c_ = sp.true if c_ is True else c_
+                    r_ = self.cmp(op, e_, other) if left else self.cmp(op, other, e_)
+                    res = sp.Or(res, sp.And(rest, c_, r_))
+                    rest = sp.And(rest, sp.Not(c_))
+                return sp.simplify_logic(res)
         if op in ("==", "!="):
             d = sp.expand(a - b)
             from sympy.core.function import AppliedUndef
@@ -215,6 +225,26 @@ class Exec:
             if m.is_number and m <= 0:
                 return False           # e = m - (hi - lo) <= -1
         return None
+
+    def fold_under(self, v, pc):
+        """conditional value reduced to the branch the path condition selects"""
+        for _ in range(4):
+            if not isinstance(v, sp.Piecewise) or not isinstance(pc, sp.Basic):
+                return v
+            rest = pc
+            pick = None
+            for e_, c_ in v.args:
+                c_ = sp.true if c_ is True else c_
+                if sp.simplify_logic(sp.Implies(rest, c_)) is sp.true:
+                    pick = e_
+                    break
+                if sp.simplify_logic(sp.Implies(rest, sp.Not(c_))) is sp.true:
+                    continue
+                return v
+            if pick is None:
+                return v
+            v = pick
+        return v
 
     def refine(self, pc):
         """path condition with the comparison atoms that the ranges of the active symbolic loops decide folded away (a guard
@@ -659,7 +689,7 @@ class Exec:
             vals = []
             for a in n.get("a", []):
                 v = self.rv(self.ev(a, env, pc), pc)
-                vals.append(v)
+                vals.append(self.fold_under(v, pc))
             self.events.append({"kind": "arch", "callee": callee, "cfull": n.get("cfull"), "cdecl": n.get("cdecl"),
                                 "pn": n.get("pn", []), "args": vals, "pc": pc, "l": n.get("l"), "loops": list(self.loops),
                                 "in": self.cur_fn})
